@@ -1,1 +1,207 @@
-"""rules for c19 (under construction)"""
+"""C19 - runs are reproducible, re-entrant and composable (structural clauses: reset discipline, state that outlives a run,
+randomness, cloning of steps)."""
+
+import ast
+import re
+
+from ..cfg import FuncCFG, walk_no_nested, ENTRY, EXIT
+from ..model import AnalysisError, ClassInfo, qual
+from ..norm import Normalizer
+from ..runner import rule
+from .. import controllers as ct
+from .. import facts
+
+RUNTIME = ('pySDC/core/', 'controller_classes', 'sweeper_classes', 'convergence_controller_classes', 'transfer_classes', '/hooks/', 'pySDC/helpers/pysdc_helper.py', 'pySDC/helpers/stats_helper.py')
+STEP_STATUS_RESET = ['done', 'prev_done', 'iter', 'stage', 'force_done', 'first', 'last', 'slot', 'time_size']
+LEVEL_SLOT_EXC = {
+    'u_avg': 'written by prepare_Jacobians before it is read, in the only code that reads it (ParaDiag)',
+    'residual': 'rebound by compute_residual (L.residual = self.integrate()) before it is read',
+    'increment': 'written by the ParaDiag iteration before it is read',
+}
+
+
+def _is_runtime(rel):
+    return any(x in rel for x in RUNTIME)
+
+
+@rule('C19', 'C19.R1', 'reset at run/block start: statistics cleared before anything is recorded; restart_block assigns every step status field the handlers read; reset_level rebinds every data slot', floor=24)
+def r1(ctx, R):
+    repo = ctx.repo
+    for spec in ct.ALL:
+        rel, cn, driver = spec
+        fn = repo.func(rel, f'{cn}.run')
+        w = f'{rel}:{cn}.run'
+        R.fn(w)
+        cfg = FuncCFG(fn)
+        rs = [n for n in cfg.stmt_of if any(ast.unparse(c.func) == 'hook.reset_stats' for c in cfg.calls_at(n))]
+        ok = len(rs) == 1
+        if ok:
+            lp = cfg.loops_of[id(cfg.stmt_of[rs[0]])]
+            hdr = cfg.node_of[id(lp[0])] if lp else rs[0]
+            ok = bool(lp) and ast.unparse(lp[0].iter) == 'self.hooks'
+            later = [n for n in cfg.stmt_of if any(isinstance(c.func, ast.Attribute) and c.func.attr in ('restart_block', driver, 'pre_run', 'post_setup') for c in cfg.calls_at(n))]
+            ok = ok and bool(later) and all(cfg.dominates(hdr, n) for n in later)
+        R.check(ok, f'{cn}.run :: every hook forgets the previous run before restart_block / the first callback', w, 'for hook in self.hooks: hook.reset_stats() dominating restart_block and all callbacks', f'{len(rs)} reset site(s)')
+        fn = repo.func(rel, f'{cn}.restart_block')
+        w = f'{rel}:{cn}.restart_block'
+        R.fn(w)
+        N = Normalizer(fn, inline_scalars=False)
+        fields = {}
+        for c in N.contribs:
+            m = re.fullmatch(r'(self\.MS\[p\]|self\.S)\.status\.(\w+)', c.target)
+            if m and c.op == '=':
+                fields[m.group(2)] = c
+        want = [f for f in STEP_STATUS_RESET if not (cn == 'controller_MPI' and f == 'slot')]
+        missing = [f for f in want if f not in fields]
+        R.check(not missing, f'{cn}.restart_block :: assigns every step status field that handlers read before writing', w, want, f'missing {missing}')
+        cond = [f for f, c in fields.items() if any('status' in g for g in c.guards)]
+        R.check(not cond, f'{cn}.restart_block :: the status reset does not depend on the previous status', w, 'unconditional assignments', cond)
+        calls = [c[0] for c in N.calls]
+        ok = any(re.fullmatch(r'(self\.MS\[p\]|self\.S)\.reset_step\(\)', c) for c in calls) and any(re.fullmatch(r'(self\.MS\[p\]|self\.S)\.init_step\(u0\)', c) for c in calls)
+        if ok:
+            cfg = FuncCFG(fn)
+            a = [n for n in cfg.stmt_of if any(isinstance(c.func, ast.Attribute) and c.func.attr == 'reset_step' for c in cfg.calls_at(n))]
+            b = [n for n in cfg.stmt_of if any(isinstance(c.func, ast.Attribute) and c.func.attr == 'init_step' for c in cfg.calls_at(n))]
+            ok = cfg.dominates(a[0], b[0])
+        R.check(ok, f'{cn}.restart_block :: reset_step() before init_step(u0)', w, 'levels are emptied, then u[0] is set', 'order/calls differ')
+        rsv = [c for c in calls if c.startswith('C.reset_status_variables(')]
+        R.check(len(rsv) == 1, f'{cn}.restart_block :: convergence controllers reset their status variables for the new block', w, 'C.reset_status_variables(self, ...) for every controller', rsv)
+    # Step.reset_step -> Level.reset_level for all levels
+    fn = repo.func('pySDC/core/step.py', 'Step.reset_step')
+    N = Normalizer(fn, inline_scalars=False)
+    ok = any(c[0] == 'l.reset_level()' and c[1] and c[1][0].it == 'self.levels' for c in N.calls)
+    R.check(ok, 'Step.reset_step :: resets every level', 'pySDC/core/step.py:Step.reset_step', 'for l in self.levels: l.reset_level()', [c[0] for c in N.calls])
+    lv = repo.cls('pySDC/core/level.py', 'Level')
+    init, reset = lv.methods['__init__'], lv.methods['reset_level']
+    declared = []
+    for s in walk_no_nested(init):
+        if isinstance(s, ast.AnnAssign) and isinstance(s.target, ast.Attribute) and ast.unparse(s.target.value) == 'self' and s.value is not None:
+            if isinstance(s.value, ast.BinOp) or (isinstance(s.value, ast.Constant) and s.value.value is None and s.target.attr in ('uend',)):
+                declared.append(s.target.attr)
+    rebound = {ast.unparse(t)[5:] for s in walk_no_nested(reset) if isinstance(s, ast.Assign) for t in s.targets if ast.unparse(t).startswith('self.')}
+    w = 'pySDC/core/level.py:Level.reset_level'
+    R.fn(w)
+    for a in declared:
+        if a in rebound:
+            R.ok(f'Level.reset_level :: rebinds {a}', w, found='fresh list of None / None')
+        elif a in LEVEL_SLOT_EXC:
+            R.exc(f'Level.reset_level :: does not rebind {a}', w, LEVEL_SLOT_EXC[a])
+        else:
+            R.bad(f'Level.reset_level :: rebinds {a}', w, 'every data slot declared in Level.__init__ is reset', f'{a} keeps the objects of the previous step')
+    if len(declared) < 8:
+        raise AnalysisError(f'Level.__init__: only {len(declared)} data slots recognised')
+    st = [s for s in walk_no_nested(reset) if isinstance(s, ast.Assign) and ast.unparse(s.targets[0]) == 'self.status']
+    cfg = FuncCFG(reset)
+    ok = len(st) == 1 and ast.unparse(st[0].value) == '_Status()' and facts.guard_strings(cfg, st[0]) == ['reset_status']
+    R.check(ok, 'Level.reset_level :: a fresh level status with reset_status', w, 'self.status = _Status() if reset_status', [ast.unparse(s) for s in st])
+
+
+# class-level / global state written from methods, each with the reason it cannot change a result (table B5)
+CLASS_STATE = {
+    'FrozenClass.__init_subclass__': 'per-subclass allow-list created at class creation time',
+    'FrozenClass.add_attr': 'append-only allow-list of attribute names: only widens what may be assigned, never a value',
+    'mesh.__new__': 'communicator of the last mesh built from a tuple; None in every serial run',
+    'cupy_mesh.__new__': 'same as mesh (GPU variant)',
+    'RungeKuttaIMEX.__init__': 'idempotent default: weights_explicit = weights if it was None',
+    'LogToPickleFile.log_to_file': 'file counter of a logging hook (names of output files only)',
+    'LogToFile.__init__': 'forwards the user flag allow_overwriting to FieldsIO.ALLOW_OVERWRITE',
+    'LogToFile.pre_run': 'counter of written solutions (bookkeeping of the output file)',
+    'LogToFile.post_step': 'same',
+    'LogToFile.post_run': 'same',
+    'Rectilinear.setupMPI': 'explicit user call that configures parallel output',
+    'SpectralHelper1D.setup_GPU': 'explicit backend switch (user call)', 'SpectralHelper1D.setup_CPU': 'explicit backend switch (user call)',
+    'SpectralHelper.setup_GPU': 'explicit backend switch (user call)', 'SpectralHelper.setup_CPU': 'explicit backend switch (user call)',
+    'testequation0d.setup_GPU': 'explicit backend switch (user call)', 'IMEX_Laplacian_MPIFFT.setup_GPU': 'explicit backend switch (user call)',
+    'polynomial_testequation.__init__': 'GPU switch selected by the useGPU parameter',
+}
+
+
+def _class_writes(repo, fn):
+    names = set(repo.by_simple)
+    params = {a.arg for a in fn.args.args + fn.args.kwonlyargs}
+    local = {n.id for n in ast.walk(fn) if isinstance(n, ast.Name) and isinstance(n.ctx, ast.Store)}
+    out = []
+    for s in ast.walk(fn):
+        tg = s.targets if isinstance(s, ast.Assign) else [s.target] if isinstance(s, (ast.AugAssign, ast.AnnAssign)) else []
+        for t in tg:
+            if isinstance(t, ast.Attribute):
+                b = ast.unparse(t.value)
+                if b in ('cls', 'type(self)', 'self.__class__') or (b in names and b not in params and b not in local):
+                    out.append(ast.unparse(t))
+        if isinstance(s, ast.Global):
+            out += [f'global {n}' for n in s.names]
+    return out
+
+
+@rule('C19', 'C19.R2', 'state that outlives a run: every write to a class attribute / module global from a method is a tabled entry with a reason (B5)', floor=18)
+def r2(ctx, R):
+    repo = ctx.repo
+    seen = set()
+    for m, ci, fn in repo.all_functions():
+        ws = _class_writes(repo, fn)
+        if not ws:
+            continue
+        name = (ci.name + '.' if ci else '') + fn.name
+        w = qual(m, ci, fn)
+        R.fn(w)
+        if name in CLASS_STATE:
+            seen.add(name)
+            R.exc(f'{name} :: writes {sorted(set(ws))[:3]}', w, CLASS_STATE[name])
+        else:
+            R.bad(f'{name} :: writes {sorted(set(ws))[:3]}', w, 'no class-level / global state written from a method (or a table entry with the reason it cannot change a result)', f'{sorted(set(ws))}')
+    missing = set(CLASS_STATE) - seen
+    if missing:
+        raise AnalysisError(f'C19.R2: tabled class-state writers not found any more: {sorted(missing)[:4]}')
+    # positive control
+    pc = ast.parse('class K:\n    n = 0\n    def f(self):\n        type(self).n += 1\n').body[0].body[1]
+    if not _class_writes(repo, pc):
+        raise AnalysisError('C19.R2 positive control not detected')
+
+
+GLOBAL_RNG = re.compile(r'^(np|numpy|cp|xp|self\.xp)\.random\.(?!RandomState$|default_rng$|Generator$|SeedSequence$)\w+$|^random\.\w+$')
+
+
+@rule('C19', 'C19.R3', 'randomness: no draw from a global RNG in run-time modules; per-instance generators are re-seeded on a path from run()/restart_block', floor=2)
+def r3(ctx, R):
+    repo = ctx.repo
+    n = 0
+    for m, ci, fn in repo.all_functions():
+        draws = sorted({ast.unparse(c.func) for c in ast.walk(fn) if isinstance(c, ast.Call) and GLOBAL_RNG.match(ast.unparse(c.func))})
+        if not draws:
+            continue
+        name = (ci.name + '.' if ci else '') + fn.name
+        w = qual(m, ci, fn)
+        if _is_runtime(m.relpath):
+            n += 1
+            R.bad(f'{name} :: draws from the global RNG {draws}', w, 'a seeded per-instance generator', draws)
+        else:
+            R.note(f'{name} :: uses the global RNG {draws}', w, 'outside the run-time modules anchored by C19 (problem classes / DAE project): initial data or project-specific predictor')
+    R.ok('run-time modules :: scan for global RNG draws', 'pySDC/core + implementations/{controller,sweeper,convergence_controller,transfer}_classes + hooks', found=f'{n} draw site(s)')
+    # per-instance generators
+    gens = []
+    W = ctx.memo('attr_writes', lambda: facts.attr_writes(repo))
+    for x in W:
+        if _is_runtime(x.module.relpath) and x.receiver == 'self' and isinstance(x.value, ast.Call) and re.search(r'random\.(RandomState|default_rng)$', ast.unparse(x.value.func)):
+            gens.append(x)
+    if not gens:
+        raise AnalysisError('C19.R3: Sweeper.rng (the confirmed per-instance generator) not found')
+    for g in gens:
+        cname = g.cls.name if g.cls else '?'
+        resets = [y for y in W if y.attr == g.attr and y.receiver.endswith(('sweep', 'self')) and y is not g and _is_runtime(y.module.relpath) and y.fn.name not in ('__init__',)]
+        seeds = [c for c in ctx.memo('call_sites', lambda: facts.call_sites(repo)) if c.name == 'seed' and c.receiver and c.receiver.endswith(g.attr)]
+        ok = bool(resets) or bool(seeds)
+        R.check(ok, f'{cname}.{g.fn.name} :: generator self.{g.attr} is re-seeded / re-created at the start of a run or block', g.qual, f'an assignment or .seed() of {g.attr} reachable from run()/restart_block/predict', f'created in {g.fn.name} only; advanced by every predict() with initial_guess=random')
+
+
+@rule('C19', 'C19.R4', 'steps are clones by value: MS[1:] are dill copies of MS[0] or freshly constructed, never references', floor=2)
+def r4(ctx, R):
+    repo = ctx.repo
+    for spec in (ct.NONMPI, ct.PARADIAG):
+        rel, cn, _ = spec
+        fn = repo.func(rel, f'{cn}.__init__')
+        w = f'{rel}:{cn}.__init__'
+        R.fn(w)
+        app = [ast.unparse(c.args[0]) for c in ast.walk(fn) if isinstance(c, ast.Call) and ast.unparse(c.func) == 'self.MS.append' and c.args]
+        first = [ast.unparse(s.value) for s in walk_no_nested(fn) if isinstance(s, (ast.Assign, ast.AnnAssign)) and ast.unparse(s.targets[0] if isinstance(s, ast.Assign) else s.target) == 'self.MS']
+        ok = first in (['[Step(description)]'], ['[]']) and bool(app) and all(a == 'dill.copy(self.MS[0])' or re.fullmatch(r'(\w+\.)?Step\(description\)', a) for a in app)
+        R.check(ok, f'{cn}.__init__ :: steps are independent objects', w, 'self.MS = [Step(description)]; append dill.copy(self.MS[0]) | Step(description)', {'first': first, 'appended': app})
